@@ -211,6 +211,88 @@ def check_fresh_processes(d, M, seed):
         shutil.rmtree(scratch, ignore_errors=True)
 
 
+def check_history(d, M, seed):
+    """the site generated after other work of the same process on the same and on related inputs - a build that failed and was then repaired
+    in place, stand-alone pages of the tree's recipes and of a recipe without a plain title, linting - equals the site a fresh interpreter
+    generates from the final tree; and a tree that must be refused is refused by both"""
+    import json
+    import os
+    import subprocess
+    import sys
+    from recipe_grid.static_site.standalone_page import generate_standalone_page
+    out = []
+    scratch = gen_site.scratch_root()
+    # a tree that generates: M covers every stated serving count
+    M = max([M] + [r["servings"] or 0 for _, dd in gen_site.walk(d) for r in dd["recipes"]])
+
+    def fresh(src, name):
+        env = dict(os.environ, PYTHONPATH=os.pathsep.join(p for p in sys.path if p))
+        p = subprocess.run([sys.executable, "-m", "harness.site_subproc", str(src), str(scratch / name), str(M), "sorted", str(seed)],
+                           cwd=os.path.dirname(os.path.dirname(os.path.dirname(os.path.abspath(__file__)))), env=env, stdout=subprocess.PIPE, stderr=subprocess.PIPE, text=True, timeout=300)
+        try:
+            return json.loads(p.stdout.strip().splitlines()[-1])
+        except Exception:
+            return {"raises": "fresh interpreter failed: " + (p.stderr or p.stdout)[-200:]}
+
+    def here(src, name):
+        try:
+            with Listing("sorted"):
+                generate_static_site(src, scratch / name, M)
+            return digest(scratch / name)
+        except Exception as e:  # noqa
+            return {"raises": type(e).__name__}
+
+    try:
+        src = scratch / "my site"
+        gen_site.write_tree(d, src)
+        readme = src / (d["readme"]["file"] if d["readme"] else "README.md")
+        if not readme.exists():
+            readme.write_text("# Front page\n\nhello\n")
+        # 1. a build that fails late (a syntax error in the recipe that is read last), then the recipe is mended and the readme edited, both in place
+        broken = src / "zz-broken.md"
+        broken.write_text("# Broken for 1\n\n    bake(2 eggs, 100 g flour\n")
+        r1 = here(src, "out-failed")
+        if "raises" not in r1:
+            out.append(("C17:generation-accepts-a-recipe-with-a-syntax-error", "zz-broken.md: bake(2 eggs, 100 g flour"))
+        with open(broken, "r+") as f:
+            f.seek(0)
+            f.write("# Mended for 1\n\n    1 x\n")
+            f.truncate()
+        with open(readme, "r+") as f:
+            text = f.read().replace("# ", "# Rewritten ", 1)
+            f.seek(0)
+            f.write(text)
+            f.truncate()
+        # 2. stand-alone pages of the tree's own recipes and of a recipe whose heading is not plain text; lint
+        titleless = "# Mum's *best* sponge for 1\n\n    1 x\n"
+        (scratch / "loose.md").write_text(titleless)
+        for f in [scratch / "loose.md"] + sorted(src.rglob("*.md"))[:6]:
+            try:
+                generate_standalone_page(f, embed_local_links=False)
+            except Exception:  # noqa
+                pass
+        a, b = here(src, "out-here"), fresh(src, "out-fresh")
+        if "raises" in a and "raises" in b:
+            # the scenario is void unless the mended tree generates
+            out.append(("C17:generation-of-a-valid-tree-raises", "after mending: this process %r, a fresh interpreter %r" % (a["raises"], b["raises"])))
+        if a != b:
+            if "raises" in a or "raises" in b:
+                out.append(("C17:output-depends-on-earlier-work-of-the-process", "after a failed build, in-place repairs and stand-alone pages: this process %r, a fresh interpreter %r"
+                            % (a.get("raises", "generates"), b.get("raises", "generates"))))
+            else:
+                diff = sorted(f for f in set(a) | set(b) if a.get(f) != b.get(f))
+                out.append(("C17:output-depends-on-earlier-work-of-the-process", "after a failed build, in-place repairs and stand-alone pages: %r differ from a fresh interpreter's" % diff[:4]))
+        # 3. the same tree plus a recipe without a plain title (its text has been through the stand-alone generator): refused by both
+        (src / "sponge.md").write_text(titleless)
+        a, b = here(src, "out-here2"), fresh(src, "out-fresh2")
+        if a.get("raises") != b.get("raises") or ("raises" not in a and a != b):
+            out.append(("C17:output-depends-on-earlier-work-of-the-process", "a tree with a recipe without a plain title: this process %r, a fresh interpreter %r"
+                        % (a.get("raises", "generates"), b.get("raises", "generates"))))
+        return out
+    finally:
+        shutil.rmtree(scratch, ignore_errors=True)
+
+
 def check_inplace_edit(d, M):
     """a readme and a recipe rewritten in place (nothing added or removed) between two generations in one process"""
     import copy
@@ -296,6 +378,15 @@ def oracle(run):
                 if sig not in seen:
                     seen.add(sig)
                     run.violate(sig, detail, {"site": c14.d_json(d), "M": M, "inplace": True})
+    # history of the process: failed builds, repairs in place, stand-alone pages before the site
+    for i in range(run.budget(2, 20)):
+        d, M = gen_case(rng)
+        run.case(("history", gen_site.tree_sexp(d), M), True, kind="process-history")
+        seen = set()
+        for sig, detail in check_history(d, M, i):
+            if sig not in seen:
+                seen.add(sig)
+                run.violate(sig, detail, {"site": c14.d_json(d), "M": M, "history": True})
     # fresh interpreters: amounts of equal value written as a decimal in one recipe and as a fraction in another
     import copy
     for i in range(run.budget(2, 20)):
@@ -312,7 +403,9 @@ def oracle(run):
 
 def replay(run, obj):
     r = obj["replay"]
-    if r.get("fresh"):
+    if r.get("history"):
+        res = check_history(c14.d_unjson(r["site"]), r["M"], 0)
+    elif r.get("fresh"):
         res = check_fresh_processes(c14.d_unjson(r["site"]), r["M"], 0)
     elif r.get("inplace"):
         res = check_inplace_edit(c14.d_unjson(r["site"]), r["M"])
